@@ -178,6 +178,11 @@ def execute(ctx, case):
         df.index = [f"row{(i * 7919) % len(df)}" for i in range(len(df))]
     if case.get("extra_col"):
         df.insert(0, "unrelated", np.arange(len(df))[::-1])
+        if case["_seed"] % 2:
+            # columns showbias is never told about may have gaps (missing values): the rows still belong to their groups
+            gaps = np.random.default_rng(case["_seed"] + 3).random(len(df)) < 0.3
+            df.insert(1, "age", np.where(gaps, np.nan, 30.0 + np.arange(len(df)) % 40))
+            df.insert(2, "note", np.where(gaps[::-1], None, "x").astype(object))
     if len(gcols) > 1 and case["_seed"] % 3 == 0:
         # the order in which the group columns are *listed* defines the key, not the order the frame happens to hold them in
         df = df[list(df.columns)[::-1]]
@@ -211,6 +216,22 @@ def execute(ctx, case):
         strat = case["strat"]
         kw.update(bootstrap_ci=True, alpha=case["alpha"],
                   bootstrap_config=BootstrapConfig(nb_samples=case["nb_samples"], bootstrap_method=case["bm"], stratified_sampling=strat))
+    if case["_seed"] % 4 == 2:
+        # a history on one frame object: it was analysed before, with other contents (scores, labels and group values of other rows), and then
+        # edited in place - same object, same shape, same column roles. The report is about the frame as it is now
+        hist_cols = ["score", "label"] + gcols
+        saved = {c_: df[c_].array.copy() for c_ in hist_cols}
+        perm_ = np.random.default_rng(case["_seed"] + 99).permutation(len(df))
+        with monitors.oracle_scope_ctx():
+            for j_, c_ in enumerate(hist_cols):
+                df[c_] = saved[c_][np.roll(perm_, j_)]
+            try:
+                np.random.seed(case["_seed"] + 1)
+                showbias(df, group_arg, "label", "score", **kw)
+            except Exception:  # noqa: BLE001 - the earlier frame is not what is judged here
+                pass
+            for c_ in hist_cols:
+                df[c_] = saved[c_]
     np.random.seed(case["_seed"])
     sess.bs_log.clear()
     sess.bci_log.clear()
